@@ -223,6 +223,42 @@ func (x *xlate) emit(op string, dst ssa.Value, srcs ...ssa.Value) {
 	x.out = append(x.out, in)
 }
 
+// cond renders a branch condition in terms of locations (stable under renumbering of SSA temporaries).
+func (x *xlate) cond(v ssa.Value, depth int) string {
+	if depth > 6 {
+		return "?"
+	}
+	switch v := v.(type) {
+	case *ssa.Const:
+		return v.Value.String()
+	case *ssa.Call:
+		if f := v.Common().StaticCallee(); f != nil && len(v.Common().Args) > 0 {
+			if l, ok := x.loc(v.Common().Args[0]); ok {
+				return f.Name() + "(" + l.String() + ")"
+			}
+			return f.Name() + "(?)"
+		}
+	case *ssa.BinOp:
+		return x.cond(v.X, depth+1) + " " + v.Op.String() + " " + x.cond(v.Y, depth+1)
+	case *ssa.UnOp:
+		if v.Op == token.MUL {
+			if l, ok := x.loc(v.X); ok {
+				return l.String()
+			}
+			// load of a freshly built composite literal (e.g. gfP{0}): render its stores
+			return "lit"
+		}
+		return v.Op.String() + x.cond(v.X, depth+1)
+	case *ssa.Phi:
+		parts := make([]string, len(v.Edges))
+		for i, e := range v.Edges {
+			parts[i] = x.cond(e, depth+1)
+		}
+		return "phi(" + strings.Join(parts, ",") + ")"
+	}
+	return "?"
+}
+
 func endsInReturn(b *ssa.BasicBlock) bool {
 	if len(b.Instrs) == 0 {
 		return false
@@ -279,7 +315,7 @@ func (x *xlate) function(f *ssa.Function, mainPath bool) {
 						next = t
 					}
 				}
-				x.guards = append(x.guards, fmt.Sprintf("%s: %s", f.Name(), in.Cond.String()))
+				x.guards = append(x.guards, fmt.Sprintf("%s: %s", f.Name(), x.cond(in.Cond, 0)))
 			case *ssa.Jump:
 				next = b.Succs[0]
 			case *ssa.Return:
@@ -502,6 +538,14 @@ func main() {
 		if len(r.guards) > 0 {
 			fmt.Fprintf(&sb, "/-- main path; guards skipped: %s -/\n", strings.ReplaceAll(strings.Join(r.guards, " ; "), "-/", "- /"))
 		}
+		fmt.Fprintf(&sb, "def %s_guards : List String := [", r.name)
+		for i, g := range r.guards {
+			if i > 0 {
+				sb.WriteString(", ")
+			}
+			fmt.Fprintf(&sb, "%q", g)
+		}
+		sb.WriteString("]\n")
 		fmt.Fprintf(&sb, "def %s : List Instr := [\n", r.name)
 		for i, in := range r.ins {
 			sep := ","
